@@ -5,6 +5,8 @@ type nat =
 | O
 | S of nat
 
+val option_map : ('a1 -> 'a2) -> 'a1 option -> 'a2 option
+
 val fst : ('a1 * 'a2) -> 'a1
 
 val snd : ('a1 * 'a2) -> 'a2
@@ -123,11 +125,21 @@ val ascii_of_nat : nat -> char
 
 val map : ('a1 -> 'a2) -> 'a1 list -> 'a2 list
 
+val flat_map : ('a1 -> 'a2 list) -> 'a1 list -> 'a2 list
+
+val existsb : ('a1 -> bool) -> 'a1 list -> bool
+
 val forallb : ('a1 -> bool) -> 'a1 list -> bool
+
+val filter : ('a1 -> bool) -> 'a1 list -> 'a1 list
+
+val find : ('a1 -> bool) -> 'a1 list -> 'a1 option
 
 val eqb0 : char list -> char list -> bool
 
 val append : char list -> char list -> char list
+
+val list_ascii_of_string : char list -> char list
 
 type err =
 | ErrValue
@@ -151,6 +163,8 @@ val err_name : err -> char list
 val mem_str : char list -> char list list -> bool
 
 val list_str_eqb : char list list -> char list list -> bool
+
+val concat_str : char list list -> char list
 
 val digit_char : nat -> char
 
@@ -258,5 +272,165 @@ val builtin_names : (char list * char list) list
 val documented : char list list
 
 val math_env : menv
+
+type pyval =
+| PStr of char list
+| PList of char list list
+
+val pyval_eqb : pyval -> pyval -> bool
+
+val lines_of : pyval -> char list list
+
+type raw = (char list * pyval) list
+
+val lookup : char list -> (char list * 'a1) list -> 'a1 option
+
+type block = { b_name : pyval; b_vals : (char list * pyval) list }
+
+val vals_eqb : (char list * pyval) list -> (char list * pyval) list -> bool
+
+val block_eqb : block -> block -> bool
+
+val mk_block : char list list -> raw -> block result
+
+val ok_to_add : block -> block list -> bool result
+
+val process : char list list -> raw list -> block list -> block list result
+
+val dedup : char list list -> raw list -> block list result
+
+val get : char list -> block -> char list list
+
+val ib_fetch : char list -> block list -> char list list
+
+type tnode =
+| TText of char list
+| TVar of char list
+| TFor of char list * char list * tnode list
+
+type genv = char list -> char list list
+
+type lenv = (char list * char list) list
+
+val render_node : genv -> lenv -> tnode -> char list
+
+val render_nodes : genv -> lenv -> tnode list -> char list
+
+val render : tnode list -> genv -> char list
+
+type source =
+| SrcQv of char list
+| SrcProp of char list
+
+type backend = { be_name : char list; be_extra_keys : char list list;
+                 be_templates : (char list * tnode list) list }
+
+type config = { c_fields : char list list;
+                c_props : (char list * char list) list;
+                c_wiring : (char list * source list) list;
+                c_backends : backend list }
+
+type qenv = char list -> char list list
+
+val source_val : config -> qenv -> block list -> source -> char list list
+
+val info : config -> backend -> qenv -> block list -> genv
+
+val find_backend : config -> char list -> backend option
+
+val package :
+  config -> backend -> qenv -> raw list -> (char list * char list) list result
+
+type slot = { sl_pre : tnode list; sl_x : char list; sl_body : tnode list;
+              sl_post : tnode list }
+
+val find_slot : char list -> tnode list -> slot option
+
+val uses_node : char list -> tnode -> bool
+
+val uses : char list -> tnode list -> bool
+
+val flat_body : char list -> tnode list -> bool
+
+val static_text : tnode list -> char list
+
+val keys_of_field : config -> char list -> char list list
+
+val split_last_prop :
+  config -> char list -> source list -> char list list option
+
+val key_shape : config -> char list -> char list -> char list list option
+
+val slot_of :
+  config -> backend -> char list ->
+  (((char list * char list) * slot) * char list list) option
+
+val wrap_parts : slot -> (char list * char list) option
+
+val d_pyval : sexp -> pyval option
+
+val d_kv : sexp -> (char list * pyval) option
+
+val d_raw : sexp -> raw option
+
+val d_md : sexp -> raw list option
+
+val d_qenv : sexp -> qenv option
+
+val s_pyval : pyval -> sexp
+
+val s_block : block -> sexp
+
+val run_package : config -> sexp -> sexp
+
+val run_dedup : config -> sexp -> sexp
+
+val run_slots : config -> sexp -> sexp
+
+val inject_fields : char list list
+
+val ib_props : (char list * char list) list
+
+val info_wiring : (char list * source list) list
+
+val t_atlas_0 : tnode list
+
+val t_atlas_1 : tnode list
+
+val t_atlas_2 : tnode list
+
+val t_atlas_3 : tnode list
+
+val t_atlas_4 : tnode list
+
+val backend_atlas : backend
+
+val t_cms_aod_0 : tnode list
+
+val t_cms_aod_1 : tnode list
+
+val t_cms_aod_2 : tnode list
+
+val t_cms_aod_3 : tnode list
+
+val t_cms_aod_4 : tnode list
+
+val backend_cms_aod : backend
+
+val t_cms_miniaod_0 : tnode list
+
+val t_cms_miniaod_1 : tnode list
+
+val t_cms_miniaod_2 : tnode list
+
+val t_cms_miniaod_3 : tnode list
+
+val t_cms_miniaod_4 : tnode list
+
+val backend_cms_miniaod : backend
+
+val backends : backend list
+
+val inject_cfg : config
 
 val dispatch : char list -> sexp -> sexp
